@@ -38,6 +38,30 @@ CLAIMED = {
   text="Decides: every production function that writes a batch key (directly or through StoreBatch) archives GetCheckpoint of that batch on every success path, and the archive has no Delete; bad-signature punishment (Jail, Slash) is dominated by 'checkpoint not archived' for the same checkpoint value the signer is recovered from, and hits GetValidatorByEthAddress(EthAddressFromSignature(...)); prune-time jailing is dominated by the 10 % floor whose formula normalises exactly (truncating divisions rejected) to votes < total/10, by 'no evidence from this validator', and targets current-snapshot validators only; missing a relay jails nobody. NOT decided: signature-recovery cryptography, evidence histories.",
   technique="store writer sets + must-pass-through + SSA dominator guards + symbolic threshold normal form with truncation tracking",
   ref="C13"),
+ "C14": dict(
+  text="Decides: every evm Message literal takes Assignee / AssigneeRemoteAddress from results #0/#1 of one PickValidatorForMessage call under its nil error (or, for the valset sender, at every call site); the keeper pick returns the snapshot entry's address for the requested chain; a batch's assignee and remote address come from the same pick and the validator's registered address under found; scoring entries exist only with metrics and fee records; the job filter accepts only through the chain-matched account and, under an MEV requirement, only if that same account has the trait (per-edge facts for the disjunction); an evm message is offered only under all five filters with the stateful oldest-per-sender filter evaluated before the estimate and assignee filters; each fee is Ceil(multiplier x base) before truncation. NOT decided: scoring arithmetic, tie behaviour, the per-sender filter's behaviour over arbitrary queue contents.",
+  technique="value-flow identity (same call, tuple index) + SSA dominator / per-edge guards + short-circuit order check + call-slice shape check",
+  ref="C14"),
+ "C15": dict(
+  text="Decides: the tax returned is amount.Mul(num).Quo(den) in that order with num/den the numerator/denominator of the stored Rate, zero for exempt sender / zero rate / unset tax; SetBridgeTax saves only under Sign() >= 0; the usage counter has one runtime writer, every write is dominated by newUsage.Total.GT(limit) == false for the very object persisted, the new total is the amount or stored total + amount; the send path checks and counts before the lock under its nil error (rejected sends are discarded with the transaction, C01.R1). NOT decided: rounding for all amounts, window roll-over arithmetic.",
+  technique="call-chain shape (math method chains) + SSA dominator guards + store writer sets",
+  ref="C15"),
+ "C16": dict(
+  text="Decides: every privileged site in the token-factory msg server is dominated by creator == GetAdmin() of the authority metadata loaded for the denomination the operation uses; mint/burn pass the creator as the only account; MintCoins/BurnCoins and their paired transfers are dominated by DeconstructDenom == nil, move exactly the amount parameter and use the address parameter as given; privileged keeper functions are called only from the msg server / create flow / genesis and only the factory and the bridge mint or burn; creation requires bank metadata for GetTokenDenom(creator, sub) to be absent and uses the creator's namespace. NOT decided: supply arithmetic over histories.",
+  technique="SSA dominator guards + access-path influence + who-may-call",
+  ref="C16"),
+ "C17": dict(
+  text="Decides: the jobs store is written only by the save function reached from AddNewJob under JobIDExists(job id) == false and never deleted; the owner is the creator; ScheduleNow's payload is the stored payload or, on an edge dominated by GetIsPayloadModifiable()==true, the caller's; a caller payload on a fixed job returns before the chain executes; the evm ExecuteJob has one enqueue site on every success path whose result is returned, with payload = injectSenderIntoPayload(requester's whole address, job payload), padded left to 32 bytes, no fixed-width truncation of the identity. NOT decided: 'exactly one message' across valset side effects, job definition parsing.",
+  technique="store writer sets + phi-edge guards + must-pass-through + access-path influence with forbidden-call check",
+  ref="C17"),
+ "C18": dict(
+  text="Decides: the paloma module account is moved by exactly the lock (coins identical to the recorded licence amount, followed by saving the licence on every success path) and the release (loaded licence amount, to the activated address); vesting uses the licence amount from block time to block time + VestingMonths; creation is dominated by licence-not-found and HasAccount == false; activation deletes the licence on every success path after the release and is keyed by the creator; the sale path is dominated by fee-granter / funders / funder-found checks and by the sale contract loaded for the claim's own chain equalling the claim's contract, with errors propagated to the attestation's cached context; sale configuration is written only by governance or genesis. NOT decided: escrow equality over histories, vesting arithmetic inside the SDK.",
+  technique="bank/store writer sets + access-path value identity + SSA dominator guards + must-pass-through + error-fate",
+  ref="C18"),
+ "C19": dict(
+  text="THIN. Decides only structural necessary conditions: the priority-class table (four proto-package prefixes agreeing with the generated service names, strictly decreasing constants, single-message transactions only, ctx priority otherwise); Insert/Remove/tie re-ordering keep the four indices in step on every success path, Remove addresses the priority index with the full stored key (priority and weight), the iterator commits a sender cursor only on the yielding path; the app installs this mempool for base app and proposal handler. NOT decided (the behavioural core of the property): exactly-once, per-sender nonce order and priority interleaving of Select().Next() over arbitrary insert/remove/select histories, and CountTx equality - these are data-structure properties over histories that no static rule here establishes.",
+  technique="constant-table evaluation + co-mutation (must-pass-through) + key-completeness + ordering check on SSA of generic instantiations",
+  ref="C19"),
  "C01": dict(
   text="Decides over every skyway function that (transitively, VTA call graph) mutates pool / batch / id-counter / escrow state: a function that can fail after a mutation is an atomic wrapper (cache context committed only on success, every mutating callee on the cached context) or all caller chains propagate the error to a transaction boundary / atomic wrapper, never log-and-continue; every bank call moving the escrow has a registered shape with paired amounts (lock = amount + the recorded tax value; refund = stored amount + stored tax to the checked owner after removal; burn = batch sum, followed by batch deletion; mint = claim amount, only under the attestation handler whose only caller chain is processAttestation <- TryAttestation; governance one-off authority-guarded); pool/batch moves are exclusive and ordered; a failed local send of a minted deposit still reaches the community pool (path-sensitive over flag variables). NOT decided: the numeric identity escrow == sum(amount+tax) over arbitrary histories (follows informally from the pairing rules), id uniqueness arithmetic, atomicity inside the SDK bank keeper.",
   technique="store/bank writer sets + transitive mutator closure over VTA call graph + error-fate analysis + atomic-wrapper typestate + access-path amount pairing + path-sensitive must-pass-through",
